@@ -20,6 +20,31 @@ package packet
 //@ pred tcpAt(h TCPHeader, b []byte) = h.SrcPort == b[0]*256 + b[1] && h.DstPort == b[2]*256 + b[3] && h.DataOffset == b[12] / 16 && h.Reserved == 0 && h.Flags == (b[12]*256 + b[13]) % 512
 //@ pred udpAt(h UDPHeader, b []byte) = h.SrcPort == b[0]*256 + b[1] && h.DstPort == b[2]*256 + b[3]
 
+// the layered breakdown of a sampled header as one specification: which octet strings decode (xxOK) and what the
+// packet then holds (xxSpec), in terms of the octets only (d is the header as sampled, before any in-place edit)
+// the text of an address depends on its octets only (net.IP.String reads nothing else); stated for the two lengths
+// that occur, each with a single-trigger axiom
+//@ uninterp ipText16(b0 mathint, b1 mathint, b2 mathint, b3 mathint, b4 mathint, b5 mathint, b6 mathint, b7 mathint, b8 mathint, b9 mathint, b10 mathint, b11 mathint, b12 mathint, b13 mathint, b14 mathint, b15 mathint) string
+//@ axiom ipText4Content: forall a net.IP :: len(a) == 4 ==> ipText(a) == ipText4(a[0], a[1], a[2], a[3])
+//@ axiom ipText16Content: forall a net.IP :: len(a) == 16 ==> ipText(a) == ipText16(a[0], a[1], a[2], a[3], a[4], a[5], a[6], a[7], a[8], a[9], a[10], a[11], a[12], a[13], a[14], a[15])
+//@ spec et16(d []byte, k mathint) mathint = d[k]*256 + d[k+1]
+//@ pred l4OK(b []byte, pr mathint) = (pr == 6 && len(b) >= 20) || (pr == 17 && len(b) >= 8) || ((pr == 1 || pr == 58) && len(b) >= 5)
+//@ pred l4Spec(p Packet, b []byte, pr mathint) = (pr == 6 ==> isboxed(p.L4, TCPHeader) && tcpAt(unbox(p.L4, TCPHeader), b))
+//@     && (pr == 17 ==> isboxed(p.L4, UDPHeader) && udpAt(unbox(p.L4, UDPHeader), b))
+//@     && ((pr == 1 || pr == 58) ==> isboxed(p.L4, ICMP) && unbox(p.L4, ICMP).Type == b[0] && unbox(p.L4, ICMP).Code == b[1] && eqbytes(unbox(p.L4, ICMP).RestHeader, b[4:]))
+//@ pred ip4OK(d []byte) = len(d) >= 20 && l4OK(d[20:], d[9])
+//@ pred ip4Spec(p Packet, d []byte) = isboxed(p.L3, IPv4Header) && ipv4At(unbox(p.L3, IPv4Header), d) && l4Spec(p, d[20:], d[9])
+//@ pred ip6OK(d []byte) = len(d) >= 40 && l4OK(d[40:], d[6])
+//@ pred ip6Spec(p Packet, d []byte) = isboxed(p.L3, IPv6Header) && ipv6At(unbox(p.L3, IPv6Header), d) && l4Spec(p, d[40:], d[6])
+//@ pred macsAt(l Datalink, d []byte) = l.DstMAC == macText(d[0], d[1], d[2], d[3], d[4], d[5]) && l.SrcMAC == macText(d[6], d[7], d[8], d[9], d[10], d[11])
+//@ pred ethOK(d []byte) = len(d) >= 14 && ((et16(d, 12) == 2048 && ip4OK(d[14:])) || (et16(d, 12) == 34525 && ip6OK(d[14:]))
+//@     || (et16(d, 12) == 33024 && len(d) >= 18 && ((et16(d, 16) == 2048 && ip4OK(d[18:])) || (et16(d, 16) == 34525 && ip6OK(d[18:])))))
+//@ pred ethSpec(p Packet, d []byte) = macsAt(p.L2, d)
+//@     && (et16(d, 12) != 33024 ==> p.L2.EtherType == et16(d, 12) && p.L2.Vlan == 0 && (et16(d, 12) == 2048 ==> ip4Spec(p, d[14:])) && (et16(d, 12) == 34525 ==> ip6Spec(p, d[14:])))
+//@     && (et16(d, 12) == 33024 ==> p.L2.EtherType == et16(d, 16) && p.L2.Vlan == et16(d, 14) && (et16(d, 16) == 2048 ==> ip4Spec(p, d[18:])) && (et16(d, 16) == 34525 ==> ip6Spec(p, d[18:])))
+//@ pred decoderOK(d []byte, protocol mathint) = (protocol == 1 && ethOK(d)) || (protocol == 11 && ip4OK(d)) || (protocol == 12 && ip6OK(d))
+//@ pred decoderSpec(p Packet, d []byte, protocol mathint) = (protocol == 1 ==> ethSpec(p, d)) && (protocol == 11 ==> ip4Spec(p, d)) && (protocol == 12 ==> ip6Spec(p, d))
+
 //@ func NewPacket
 //@   names _
 
@@ -89,6 +114,7 @@ package packet
 //@       && p.L2.DstMAC == macText(old(p.data)[0], old(p.data)[1], old(p.data)[2], old(p.data)[3], old(p.data)[4], old(p.data)[5])
 //@       && p.L2.SrcMAC == macText(old(p.data)[6], old(p.data)[7], old(p.data)[8], old(p.data)[9], old(p.data)[10], old(p.data)[11])
 //@       && eqbytes(p.data, old(p.data)[18:])
+//@   ensures [doubletag] len(old(p.data)) >= 18 && old(p.data)[12]*256 + old(p.data)[13] == 33024 && old(p.data)[16]*256 + old(p.data)[17] == 33024 ==> err == nil && p.L2.EtherType == 33024
 //@   ensures [shorttag] len(old(p.data)) >= 14 && len(old(p.data)) < 18 && old(p.data)[12]*256 + old(p.data)[13] == 33024 ==> err != nil
 //@   ensures p.L3 == old(p.L3) && p.L4 == old(p.L4)
 //@   modifies p.L2, p.data
@@ -97,12 +123,16 @@ package packet
 //@ func (*Packet).decodeEthernetHeader
 //@   names p _ err
 //@   ensures err == nil ==> (p.L2.EtherType == 2048 && isboxed(p.L3, IPv4Header)) || (p.L2.EtherType == 34525 && isboxed(p.L3, IPv6Header))
+//@   ensures [ok] ethOK(old(p.data)) <==> err == nil
+//@   ensures [spec] err == nil ==> ethSpec(p, old(p.data))
 //@   modifies p.L2, p.L3, p.L4, p.data
 
 //@ func (*Packet).Decoder
 //@   names p data protocol _ _ err
 //@   ensures result == p
 //@   ensures protocol != 1 && protocol != 11 && protocol != 12 ==> err != nil
+//@   ensures [ok] decoderOK(data, protocol) <==> err == nil
+//@   ensures [spec] err == nil ==> decoderSpec(p, data, protocol)
 //@   ensures protocol == 11 && len(data) >= 20 && data[9] == 6 && len(data) >= 40 ==> err == nil && isboxed(p.L3, IPv4Header) && ipv4At(unbox(p.L3, IPv4Header), data)
 //@       && isboxed(p.L4, TCPHeader) && tcpAt(unbox(p.L4, TCPHeader), data[20:])
 //@   ensures protocol == 11 && len(data) >= 28 && data[9] == 17 ==> err == nil && isboxed(p.L3, IPv4Header) && ipv4At(unbox(p.L3, IPv4Header), data)
